@@ -16,18 +16,27 @@ RULE = ('exact stream: node lists of 1..5 nodes with integer coordinates in [-8,
         'features (arbitrary, loop p0=p3, cusp handle=point, coincident nodes, collinear/already-flat, handle projecting '
         'beyond the chord end, S-shape, exact coincidence "t=1/2 point of a piece equals its start/end point": '
         'P3 = 7 P0 - 3 P1 - 3 P2 and the mirrored form) x flatness in {1,3/2,2,3,4}*2^s; points held as lists [x,y] '
-        '(cubicsuperpath) or as tuples (x,y) (the repo tests), alternating; random binary64 stream with flatness '
-        '2^-r*scale (r<=10; a few deep cases r<=18), 40% translated by up to 1e9*flat from the origin; long nearly straight '
+        '(cubicsuperpath) or as tuples (x,y) (the repo tests), alternating; every 8th case at a very small / very large absolute '
+        'size (s = +-8..60); far-from-the-origin exact class: 2..4 nodes translated by +-{1,3,5,7}*2^K (K 18..46) in x, in y or '
+        'in both, local geometry on a small dyadic unit e = 2^(K-rho) (rho 16..46: almost retracted handles 1..8 e across the '
+        'chord or in any direction, retracted handles, nearly coincident / coincident nodes) and a big unit 2^a e (chords along '
+        'axes and diagonals, ordinary handles, sideways bulges), flatness {1/8..3} e - kept only if the exact refinement stays '
+        'inside binary64 (far_reference); random binary64 stream with flatness '
+        '2^-r*scale (r<=10; a few deep cases r<=18), 40% translated by up to 1e9*flat from the origin, every 5th case with handles '
+        'pulled to 0.3..8*flat off their nodes (80% of these translated); long nearly straight '
         'pieces (dyadic chord length 1e3..1e9*flat, inner control points bulging sideways by 0.5..4*flat); every 2nd/4th case is '
         'followed by a second call on the same list object. non-trivial = at least one split; distinct by (node list, flat)')
 TRUSTED = ['harness oracle: restrict() by blossoming and dist2() by clamped projection, in exact Fractions',
            'modelled not verified: Python list indexing / slice insertion s_p[i:1] = [x] as insertion at index i (i >= 1)',
            'binary64 rounding of the real code is outside the model (model = exact rationals): on the exact stream all '
            'operations are exact (checked: results are compared as exact Fractions); the random stream is judged by the '
-           'Spec: nodes within 128 * 2^-53 * (largest |coordinate| of the piece) (measured <= 4.5), flatness exact on the '
+           'Spec: nodes within 128 * 2^-53 * (largest |coordinate| of the piece) (measured <= 4.9), flatness exact on the '
            'stored float control points outside the relative band max(1e-9, 8 * 2^-53 * extent / flat) (see notes)']
 ASSUMPTIONS = ['node lists of >= 1 nodes [hin, p, hout] (mutable lists) of points (lists or tuples) of finite floats; flat > 0; '
                'default start index i=1',
+               'exact stream incl. the far-from-the-origin class: inputs on which binary64 carries out the refinement exactly '
+               '(every de Casteljau point and every quantity of the distance test representable, checked per case by an exact '
+               'rational reference) - no bound on |coordinates| / flat there (up to 2^49 in the generated cases)',
                'random stream: flat >= 2^-20 * (extent of the path) and |coordinates| <= 1e9 * flat — for much smaller flat, '
                'flat**2 and the squared distances lose all precision / underflow, and farther from the origin binary64 cannot '
                'resolve `flat`; the real loop need not terminate there (outside the domain)']
@@ -177,6 +186,137 @@ def gen_long_piece(rng):
     return sp, flat
 
 
+# ------------------------------------------------------------------------------------------ far-from-the-origin exact stream
+def isrep(v):
+    """the rational v is exactly a binary64 value"""
+    try:
+        return F(float(v)) == v
+    except OverflowError:
+        return False
+
+
+def far_reference(pieces, flat, cap=40):
+    """Domain filter of the far-from-the-origin exact stream (NOT the oracle): the statement's refinement (halve a piece
+    until both inner control points are closer than flat to the chord) carried out in exact rationals; returns the number
+    of resulting pieces if every point met on the way (de Casteljau points included) is exactly a binary64 value AND every
+    quantity of the point-to-segment distance test (differences, dot products, squared lengths, cross product and its
+    square, flat^2) is exactly representable too - then binary64 evaluates the whole refinement without a single rounding
+    except the final quotient cross^2 / |chord|^2, whose comparison with the representable flat^2 is decided correctly by
+    monotonicity of rounding. Returns None otherwise (case not used)."""
+    f2 = F(flat) ** 2
+    if not isrep(f2):
+        return None
+    stack = list(reversed(pieces))
+    visited = leaves = 0
+    while stack:
+        P = stack.pop()
+        visited += 1
+        if visited > 2 * cap:
+            return None
+        if not all(isrep(c) for pt in P for c in pt):
+            return None
+        sx, sy = P[3][0] - P[0][0], P[3][1] - P[0][1]
+        L = sx * sx + sy * sy
+        flat_piece = True
+        for p in (P[1], P[2]):
+            dx, dy = p[0] - P[0][0], p[1] - P[0][1]
+            ex, ey = p[0] - P[3][0], p[1] - P[3][1]
+            cr = dx * sy - sx * dy
+            if not all(isrep(q) for q in (dx * sx, dy * sy, dx * sx + dy * sy, dx * dx, dy * dy, dx * dx + dy * dy, ex * ex, ey * ey,
+                                          ex * ex + ey * ey, sx * sx, sy * sy, L, dx * sy, sx * dy, cr, cr * cr)):
+                return None
+            if not dist2(p, P[0], P[3]) < f2:
+                flat_piece = False
+        if flat_piece:
+            leaves += 1
+            continue
+        mid = lambda a, b: ((a[0] + b[0]) / 2, (a[1] + b[1]) / 2)
+        m1, m2, m3 = mid(P[0], P[1]), mid(P[1], P[2]), mid(P[2], P[3])
+        m4, m5 = mid(m1, m2), mid(m2, m3)
+        m = mid(m4, m5)
+        if not all(isrep(c) for c in m2):
+            return None
+        stack.append((m, m5, m3, P[3]))
+        stack.append((P[0], m1, m4, m))
+    return leaves if leaves <= cap else None
+
+
+def gen_far_exact(rng):
+    """a path FAR from the origin (|coordinates| about 2^20..2^46 in x, in y or in both) whose local geometry lives on two
+    much smaller dyadic scales: a small unit e = |offset| * 2^-rho (rho 16..46: handles almost retracted, chords of
+    coincident-looking nodes, flatness 1/8..3 e) and a big unit 2^a e (ordinary chords and handles). Relative to the
+    coordinates the small features are below any relative epsilon (1e-6, 1e-9, 1e-12, float.epsilon*1e3 ...) although
+    they are 1..64 times the flatness. All numbers dyadic: see far_reference for the exactness filter."""
+    K = rng.randint(20, 46)
+    off = lambda: rng.choice([-1, 1]) * rng.choice([1, 1, 1, 3, 5, 7]) * 2 ** (K - rng.choice([0, 0, 1, 2]))
+    ox, oy = off(), off()
+    m = rng.random()
+    if m < 0.12:
+        ox = 0
+    elif m < 0.24:
+        oy = 0
+    rho = rng.randint(16, 46)
+    e = F(2) ** (K - rho)
+    a = rng.randint(3, max(3, min(rho - 8, 22)))
+    flat = e * rng.choice([1, 1, F(1, 2), F(1, 2), F(1, 4), F(1, 4), F(1, 8), 2, F(3, 2), F(3, 4), 3])
+    dirs = [(1, 0), (0, 1), (-1, 0), (0, -1), (1, 1), (1, -1), (-1, 1), (-1, -1)]
+    tiny = lambda: (rng.randint(-8, 8), rng.randint(-8, 8))
+    n = rng.choice([2, 2, 3, 3, 4])
+    pos = (0, 0)
+    nodes = []                    # [hin, p, hout] in units of e, local
+    chords = []
+    for i in range(n):
+        if i:
+            d = rng.choice(dirs)
+            k = rng.random()
+            if k < 0.75:
+                ln = rng.choice([1, 1, 1, 3, 5]) * 2 ** a
+                ch = (d[0] * ln, d[1] * ln)
+            elif k < 0.9:
+                ch = tiny()                                   # nodes that look coincident from far away
+            else:
+                ch = (0, 0)
+            pos = (pos[0] + ch[0], pos[1] + ch[1])
+            chords.append(ch)
+        nodes.append([None, pos, None])
+
+    def handle(p, ch, sign):
+        """a handle of node p of the piece with chord ch (sign +1: outgoing, towards the chord; -1: incoming)"""
+        k = rng.random()
+        ac = (-ch[1], ch[0])                                  # across the chord
+        nrm = max(abs(ch[0]), abs(ch[1])) or 1
+        ac = (ac[0] // nrm if abs(ac[0]) >= nrm else (1 if ac[0] > 0 else -1 if ac[0] < 0 else 0),
+              ac[1] // nrm if abs(ac[1]) >= nrm else (1 if ac[1] > 0 else -1 if ac[1] < 0 else 0))
+        if ac == (0, 0):
+            ac = rng.choice(dirs)
+        if k < 0.12:
+            return p                                          # retracted
+        if k < 0.55:                                          # almost retracted, pointing across the chord
+            h = rng.choice([1, 1, 2, 2, 3, 4, 4, 6, 8]) * rng.choice([-1, 1])
+            return (p[0] + h * ac[0], p[1] + h * ac[1])
+        if k < 0.7:                                           # almost retracted, any direction
+            t = tiny()
+            return (p[0] + t[0], p[1] + t[1])
+        fr = rng.choice([F(1, 4), F(1, 2), F(1, 8), F(3, 8)]) * sign
+        q = (p[0] + fr * ch[0], p[1] + fr * ch[1])            # ordinary handle along the chord ...
+        if k < 0.85:
+            return q
+        h = rng.choice([1, 2, 4, 8, 2 ** max(0, a - 4), 2 ** max(0, a - 2)]) * rng.choice([-1, 1])
+        return (q[0] + h * ac[0], q[1] + h * ac[1])           # ... bulging sideways (small or big)
+
+    for i in range(n):
+        nodes[i][0] = handle(nodes[i][1], chords[i - 1], -1) if i else (nodes[i][1] if rng.random() < 0.5 else tiny())
+        nodes[i][2] = handle(nodes[i][1], chords[i], 1) if i < n - 1 else (nodes[i][1] if rng.random() < 0.5 else tiny())
+    ab = [[(ox + e * F(pt[0]), oy + e * F(pt[1])) for pt in nd] for nd in nodes]
+    pieces = [(ab[i - 1][1], ab[i - 1][2], ab[i][0], ab[i][1]) for i in range(1, n)]
+    if not all(isrep(c) for nd in ab for pt in nd for c in pt) or not isrep(flat):
+        return None
+    leaves = far_reference(pieces, flat)
+    if leaves is None:
+        return None
+    return [[[float(c) for c in pt] for pt in nd] for nd in ab], float(flat), leaves > n - 1
+
+
 # ------------------------------------------------------------------------------------------ one case
 def show(sp):
     return [[[repr(c) for c in pt] for pt in nd] for nd in sp]
@@ -254,7 +394,8 @@ def judge(ctx, orig, objs, res, flat, exact, inp, stats):
                     continue
                 R = restrict(P, t0, t1)
                 err = max(max(abs(R[m][0] - Q[m][0]), abs(R[m][1] - Q[m][1])) for m in range(4))
-                if err <= tolr:
+                if err <= tolr or (exact and err <= F(KNODE) * F(U53) * size and not all(isrep(c) for pt in R for c in pt)):
+                    # exact stream: equality, unless the restriction itself is not a binary64 point (then within the float margin)
                     found = (k, t1, err); break
             if found is None:
                 ctx.violate('a resulting piece is not the original piece restricted to the next dyadic interval', inp,
@@ -298,12 +439,25 @@ def run(ctx):
         ctx.notes.append(f'probe with Fraction input: {type(ex).__name__}')
 
     cases = []
-    for _ in range(ctx.n(4000)):
+    tags = {}            # id(node list) -> class of the exact stream (evidence path)
+    nfar = ctx.n(260)
+    for _ in range(2 * nfar):                      # far from the origin, two small dyadic scales (see gen_far_exact)
+        if len(cases) >= nfar:
+            break
+        g = gen_far_exact(rng)
+        if g is not None:
+            cases.append((g[0], g[1]))
+            tags[id(g[0])] = 'far'
+    for it in range(ctx.n(4000)):
         s = rng.randint(-3, 3)
+        if it % 8 == 5:                            # the same shapes at very small / very large absolute size (exact scaling)
+            s = rng.choice([-1, 1]) * rng.randint(8, 60)
         sp = gen_nodes_int(rng)
         sp = [[[c * 2.0 ** s for c in pt] for pt in nd] for nd in sp]
         flat = rng.choice([1.0, 1.0, 1.5, 2.0, 3.0, 4.0]) * 2.0 ** s
         cases.append((sp, flat))
+        if abs(s) > 3:
+            tags[id(sp)] = 'scaled'
     cases.append(([[[0.0, 0.0], [0.0, 0.0], [0.0, 4.0]], [[4.0, 4.0], [4.0, 0.0], [4.0, 0.0]]], 1.0))
     cases.append(([[[1.0, 1.0], [2.0, 2.0], [3.0, 3.0]]], 1.0))
     cases.append(([[[0.0, 0.0], [0.0, 0.0], [4.0, 3.0]], [[-6.0, -3.0], [6.0, 0.0], [6.0, 0.0]]], 0.5))     # B(1/2) = P0
@@ -333,6 +487,9 @@ def run(ctx):
     for ci, ((sp, flat), mout) in enumerate(zip(cases, outs)):
         ptype = tuple if ci % 2 else list
         inp = {'fn': 'subdivideCubicPath', 'stream': 'exact', 'nodes': show(sp), 'flat': repr(flat), 'points': ptype.__name__}
+        tag = tags.get(id(sp))
+        if tag:
+            inp['class'] = tag
         bound = split_bound(sp, flat)
         try:
             objs, res = run_real(pu, sp, flat, len(sp) + bound + 4, ptype)
@@ -346,7 +503,7 @@ def run(ctx):
             ctx.violate('subdivideCubicPath raised ' + type(ex).__name__, inp, repr(ex), 'the node list is refined in place')
             continue
         nsplit = len(res) - len(sp)
-        ctx.count((str(sp), flat), 'exact:no-split' if nsplit == 0 else 'exact:split', nsplit > 0)
+        ctx.count((str(sp), flat), 'exact:' + (tag + ':' if tag else '') + ('no-split' if nsplit == 0 else 'split'), nsplit > 0)
         if nsplit:
             ctx.sample({'nodes': show(sp), 'flat': repr(flat), 'nodes_after': len(res)})
         d0 = stats['depth']
@@ -390,7 +547,16 @@ def run(ctx):
             sp = gen_nodes_float(rng, scale)
             r = rng.randint(0, 10) if it < nfl else rng.randint(13, 18)
             flat = scale * 2.0 ** (-r) * rng.uniform(1.0, 2.0)
-            if rng.random() < 0.4:
+            near = it % 5 == 3
+            if near:
+                # almost retracted handles: 0.3..8 * flat off their nodes, any direction (a piece that LOOKS like a straight
+                # line from far away but is not flat); mostly run far from the origin
+                for nd in sp:
+                    for h in (0, 2):
+                        if rng.random() < 0.7:
+                            ang, rad = rng.uniform(0, 2 * math.pi), flat * rng.choice([rng.uniform(0.3, 1.0), rng.uniform(1.0, 2.0), rng.uniform(2.0, 8.0)])
+                            nd[h] = [nd[1][0] + rad * math.cos(ang), nd[1][1] + rad * math.sin(ang)]
+            if rng.random() < (0.8 if near else 0.4):
                 # far from the origin: |offset| up to 1e9 * flat (beyond that binary64 cannot resolve `flat` at all)
                 ox = rng.choice([-1, 1]) * flat * 10.0 ** rng.uniform(3, 9)
                 oy = rng.choice([-1, 0, 1]) * flat * 10.0 ** rng.uniform(3, 9)
